@@ -121,3 +121,25 @@ Example C04_innermost_example :
        [EList [EVar []; EMeth (EList [EConst (CInt 10)]) sel [EBin OAdd (EVar []) (EConst (CInt 1))]]])
   = ([], Ok (VList [VList [VInt 1; VList [VInt 11]]; VList [VInt 2; VList [VInt 11]]])).
 Proof. vm_compute. reflexivity. Qed.
+
+(* ---- fuel is only a termination device --------------------------------------------------------------------------- *)
+From YV Require Import Lemmas.EvalFuel.
+
+(* an answer other than "out of fuel" is the answer - final state (every context created, the tick log) and result -
+   for every larger amount of fuel: the interpreter defines a partial function of (state, context, expression) *)
+Theorem C04_fuel_irrelevant : forall f f' s c e s' r,
+  f <= f' -> eval f s c e = (s', r) -> r <> Fuel -> eval f' s c e = (s', r).
+Proof. intros f f' s c e s' r Hf H Hr. exact (eval_fuel_mono f f' Hf s c e s' r H Hr). Qed.
+
+Theorem C04_statement_fuel_irrelevant : forall f f' data e lg r,
+  f <= f' -> run f data e = (lg, r) -> r <> Fuel -> run f' data e = (lg, r).
+Proof. exact run_fuel_mono. Qed.
+
+Theorem C04_evaluate_fuel_irrelevant : forall f f' host c data e s' r,
+  f <= f' -> evaluate f host c data e = (s', r) -> r <> Fuel -> evaluate f' host c data e = (s', r).
+Proof. exact evaluate_fuel_mono. Qed.
+
+(* two terminating runs of one statement on one document agree on the evaluation trace and on the result *)
+Theorem C04_deterministic : forall f g data e lg1 r1 lg2 r2,
+  run f data e = (lg1, r1) -> run g data e = (lg2, r2) -> r1 <> Fuel -> r2 <> Fuel -> lg1 = lg2 /\ r1 = r2.
+Proof. exact run_deterministic. Qed.
